@@ -61,11 +61,14 @@ Qed.
 Print Assumptions C07_preserved_views.
 
 (* from any reachable state: as long as the in-flight roots (cache, events, signal, trial
-   data) are table objects >= nT whose columns are buffers >= nB, nothing below is written *)
+   data) are table objects >= nT whose columns are existing buffers >= nB, nothing below is
+   written (the invariant of every history; `existing` was added with the cache theorems) *)
 Theorem C07_preserved_from_any_state : forall nB nT ops w,
   ((nB <= length (sb (w_store w)))%nat /\ (nT <= length (st (w_store w)))%nat /\
-   forall t x, (nT <= t)%nat -> nth_error (st (w_store w)) t = Some x ->
-               Forall (fun p => (nB <= snd p)%nat) (tf x)) ->
+   (forall t x, (nT <= t)%nat -> nth_error (st (w_store w)) t = Some x ->
+                Forall (fun p => (nB <= snd p)%nat) (tf x)) /\
+   (forall t x, (nT <= t)%nat -> nth_error (st (w_store w)) t = Some x ->
+                valid_fields (w_store w) (tf x) = true)) ->
   Forall (fun o => match o with Some t => (nT <= t)%nat | None => True end) (w_cache w) ->
   Forall (fun o => match o with Some t => (nT <= t)%nat | None => True end) (w_ev w) ->
   Forall (fun o => match o with Some t => (nT <= t)%nat | None => True end) (w_sig w) ->
@@ -142,6 +145,114 @@ Theorem C07_time_ra_in_range : forall m t s lo hi,
   end.
 Proof. exact time_ra_in_range. Qed.
 Print Assumptions C07_time_ra_in_range.
+
+(* ---------------------------------------------------------------- allocation facts of the table model *)
+
+(* get_selection allocates for EVERY index kind (single row, contiguous rows, empty, mask, negative): nothing that
+   existed is touched and the result is a new object all of whose columns are new arrays.  The statement skeletons of
+   get_selection / __getitem__ / copy / set_selection are pinned by kernels (storage_shapes_pinned). *)
+Theorem C07_select_allocates : forall t sl s,
+  ((forall b, (b < length (sb s))%nat -> nth_error (sb (fst (t_select t sl s))) b = nth_error (sb s) b) /\
+   (forall u, (u < length (st s))%nat -> nth_error (st (fst (t_select t sl s))) u = nth_error (st s) u)) /\
+  forall t', snd (t_select t sl s) = Ok t' ->
+    (length (st s) <= t')%nat /\
+    forall x, nth_error (st (fst (t_select t sl s))) t' = Some x ->
+              Forall (fun p => (length (sb s) <= snd p)%nat) (tf x).
+Proof. exact select_allocates. Qed.
+Print Assumptions C07_select_allocates.
+
+Theorem C07_copy_allocates : forall t keep s,
+  ((forall b, (b < length (sb s))%nat -> nth_error (sb (fst (t_copy t keep s))) b = nth_error (sb s) b) /\
+   (forall u, (u < length (st s))%nat -> nth_error (st (fst (t_copy t keep s))) u = nth_error (st s) u)) /\
+  forall t', snd (t_copy t keep s) = Ok t' ->
+    (length (st s) <= t')%nat /\
+    forall x, nth_error (st (fst (t_copy t keep s))) t' = Some x ->
+              Forall (fun p => (length (sb s) <= snd p)%nat) (tf x).
+Proof. exact copy_allocates. Qed.
+Print Assumptions C07_copy_allocates.
+
+(* signal generation incl. the in-place (narrowing) write-back of the relocated ra / dec / sin_dec and the redraw:
+   whatever is written is written into new arrays - mc and everything else that existed is untouched *)
+Theorem C07_gen_signal_allocates : forall mc n fill gs s,
+  ((forall b, (b < length (sb s))%nat -> nth_error (sb (fst (gen_signal mc n fill gs s))) b = nth_error (sb s) b) /\
+   (forall u, (u < length (st s))%nat -> nth_error (st (fst (gen_signal mc n fill gs s))) u = nth_error (st s) u)) /\
+  forall t', snd (gen_signal mc n fill gs s) = Ok t' ->
+    (length (st s) <= t')%nat /\
+    forall x, nth_error (st (fst (gen_signal mc n fill gs s))) t' = Some x ->
+              Forall (fun p => (length (sb s) <= snd p)%nat) (tf x).
+Proof. exact gen_signal_allocates. Qed.
+Print Assumptions C07_gen_signal_allocates.
+
+(* every background generation method (experimental data, MC sampling, composite MC sampling - each with any
+   scrambler or none) and the signal generator: the generated table is a new object made of new arrays only *)
+Theorem C07_generated_fresh : forall o w,
+  snd (step o w) = Ok tt ->
+  match o with
+  | GenBkgFixed i _ | GenBkgMC i _ _ _ _ _ | GenBkgComp i _ _ _ _ _ _ =>
+      (i < length (w_ev w))%nat ->
+      exists t, getroot (w_ev (fst (step o w))) i = Some t /\
+        (length (st (w_store w)) <= t)%nat /\
+        forall x, nth_error (st (w_store (fst (step o w)))) t = Some x ->
+                  Forall (fun p => (length (sb (w_store w)) <= snd p)%nat) (tf x)
+  | GenSig i _ _ _ =>
+      (i < length (w_sig w))%nat ->
+      exists t, getroot (w_sig (fst (step o w))) i = Some t /\
+        (length (st (w_store w)) <= t)%nat /\
+        forall x, nth_error (st (w_store (fst (step o w)))) t = Some x ->
+                  Forall (fun p => (length (sb (w_store w)) <= snd p)%nat) (tf x)
+  | _ => True
+  end.
+Proof. exact generated_fresh. Qed.
+Print Assumptions C07_generated_fresh.
+
+(* the per-dataset cache of the MC sampling method is machine state (w_cache); in every state reachable by a history
+   (the invariant below holds along every history, C07_preserved_from_any_state) the events generated by
+   MCDataSamplingBkgGenMethod are a different object than the cache and share no array with it *)
+Theorem C07_mc_generated_disjoint_from_cache : forall nB nT w i cfgf keepmc presel idx m,
+  ((nB <= length (sb (w_store w)))%nat /\ (nT <= length (st (w_store w)))%nat /\
+   (forall t x, (nT <= t)%nat -> nth_error (st (w_store w)) t = Some x ->
+                Forall (fun p => (nB <= snd p)%nat) (tf x)) /\
+   (forall t x, (nT <= t)%nat -> nth_error (st (w_store w)) t = Some x ->
+                valid_fields (w_store w) (tf x) = true)) ->
+  Forall (fun o => match o with Some t => (nT <= t)%nat | None => True end) (w_cache w) ->
+  Forall (fun o => match o with Some t => (nT <= t)%nat | None => True end) (w_ev w) ->
+  Forall (fun o => match o with Some t => (nT <= t)%nat | None => True end) (w_sig w) ->
+  Forall (fun o => match o with Some t => (nT <= t)%nat | None => True end) (w_tdm w) ->
+  (i < length (w_ev w))%nat ->
+  snd (step (GenBkgMC i cfgf keepmc presel idx m) w) = Ok tt ->
+  let w' := fst (step (GenBkgMC i cfgf keepmc presel idx m) w) in
+  exists t c, getroot (w_ev w') i = Some t /\ getroot (w_cache w') i = Some c /\
+    t <> c /\
+    forall x y, nth_error (st (w_store w')) t = Some x -> nth_error (st (w_store w')) c = Some y ->
+                forall p q, In p (tf x) -> In q (tf y) -> snd p <> snd q.
+Proof.
+  intros nB nT w i cfgf keepmc presel idx m G R1 R2 R3 R4.
+  exact (mc_generated_disjoint_from_cache nB nT w i cfgf keepmc presel idx m (conj G (conj R1 (conj R2 (conj R3 R4))))).
+Qed.
+Print Assumptions C07_mc_generated_disjoint_from_cache.
+
+(* merge / injection by append: afterwards every column of the events table is a new array, so the merged events
+   alias neither the signal table, nor a cache, nor the data sets *)
+Theorem C07_append_fresh_columns : forall t src s,
+  snd (t_append t src s) = Ok tt ->
+  forall x, nth_error (st (fst (t_append t src s))) t = Some x ->
+            Forall (fun p => (length (sb s) <= snd p)%nat) (tf x).
+Proof. exact append_fresh_columns. Qed.
+Print Assumptions C07_append_fresh_columns.
+
+(* non-vacuity: all index kinds succeed on a concrete table, an out-of-range index raises IndexError, and no array is
+   shared between any two of the eight resulting tables and the source *)
+Example C07_select_kinds_nonvacuous :
+  storage_shapes_pinned = true /\
+  fst (tops_obs [ex_exp ++ [(8%nat, [1; 2; 3])]; [(F_RA, [7]); (F_DEC, [8]); (F_TIME, [9]); (F_AZI, [1]); (F_ZEN, [1]); (7%nat, [0]); (8%nat, [5])]]
+                [TSel 0 (SIdx [2]); TSel 0 (SIdx [1; 2]); TSel 0 (SIdx []); TSel 0 (SMask [true; true; true]);
+                 TSel 0 (SIdx [-1]); TSel 0 (SIdx [0; 1; 2]); TCopy 0 None; TSet 0 (SIdx [0; 2]) 1; TSel 0 (SIdx [3])])
+    = [Ok tt; Ok tt; Ok tt; Ok tt; Ok tt; Ok tt; Ok tt; Ok tt; Err IndexError] /\
+  nodupb (map (fun e => snd e)
+              (snd (snd (tops_obs [ex_exp ++ [(8%nat, [1; 2; 3])]; [(F_RA, [7]); (F_DEC, [8]); (F_TIME, [9]); (F_AZI, [1]); (F_ZEN, [1]); (7%nat, [0]); (8%nat, [5])]]
+                [TSel 0 (SIdx [2]); TSel 0 (SIdx [1; 2]); TSel 0 (SIdx []); TSel 0 (SMask [true; true; true]);
+                 TSel 0 (SIdx [-1]); TSel 0 (SIdx [0; 1; 2]); TCopy 0 None; TSet 0 (SIdx [0; 2]) 1; TSel 0 (SIdx [3])])))) = true.
+Proof. vm_compute. repeat split. Qed.
 
 (* the run masks the seasonal scrambling method computes from the stored time column *)
 Theorem C07_seasonal_masks : forall runs times,
